@@ -70,7 +70,7 @@ func zzvConcRun(c zzvConcCfg) (bad string) {
 		}
 	}
 	tm := zzvTimingCfg(0)
-	r := &zzvRec{failsLeft: c.F}
+	r := &zzvRec{failsLeft: c.F, armed: -1}
 	for i := range r.pool {
 		r.pool[i] = zzvCid(i)
 	}
